@@ -105,10 +105,53 @@ def datasheet_pins(lib, name, fam, nin, groups):
     return None, None
 
 
+def source_names():
+    """The cell names the library SOURCE TEXTS of kyupy/techlib.py expand to, read by the harness itself: the string
+    passed to each TechLib(...) (string constants and module-level string names joined by +), records separated by ';',
+    the first blank-delimited token of a record is its name pattern, {a,b,c} alternatives multiply out."""
+    import ast, os
+    from .core import REPO
+    tree = ast.parse(open(os.path.join(REPO, 'src', 'kyupy', 'techlib.py')).read())
+    strs, out = {}, {}
+
+    def val(e):
+        if isinstance(e, ast.Constant) and isinstance(e.value, str):
+            return e.value
+        if isinstance(e, ast.Name) and e.id in strs:
+            return strs[e.id]
+        if isinstance(e, ast.BinOp) and isinstance(e.op, ast.Add):
+            a, b = val(e.left), val(e.right)
+            return None if a is None or b is None else a + b
+        if isinstance(e, ast.Call) and isinstance(e.func, ast.Attribute) and e.func.attr == 'replace' and len(e.args) == 2:
+            base, a, b = val(e.func.value), val(e.args[0]), val(e.args[1])
+            return None if None in (base, a, b) else base.replace(a, b)
+        return None
+    for node in tree.body:
+        if isinstance(node, ast.Assign) and len(node.targets) == 1 and isinstance(node.targets[0], ast.Name):
+            v = val(node.value)
+            if v is not None:
+                strs[node.targets[0].id] = v
+            elif isinstance(node.value, ast.Call) and getattr(node.value.func, 'id', '') == 'TechLib' and node.value.args:
+                src = val(node.value.args[0])
+                if src is None:
+                    continue
+                names = []
+                for rec in src.split(';'):
+                    toks = rec.split()
+                    if not toks:
+                        continue
+                    parts = [x[1:-1].split(',') if x.startswith('{') else [x] for x in re.split(r'({[^}]*})', toks[0]) if x]
+                    names += [''.join(t) for t in itertools.product(*parts)]
+                out[node.targets[0].id] = names
+    return out
+
+
 def records():
     from .c10 import libs
     recs = []
+    srcn = source_names()
     for lname, tlib in libs().items():
+        first = True
         for name, (impl, pins) in tlib.cells.items():
             plist = [dict(name=p, idx=int(i), out=bool(o)) for p, (i, o) in pins.items()]
             ins = [p['name'] for p in plist if not p['out']]
@@ -121,7 +164,10 @@ def records():
             recs.append(dict(lib=lname, name=name, impl=nets.struct_t(impl), pins=plist, expands=expands, defined=defined,
                              fam=fam, groups=groups, roles=roles, outroles=outroles,
                              ein=ein if ein is not None else [], eout=eout if eout is not None else [],
-                             hasein=ein is not None, haseout=eout is not None))
+                             hasein=ein is not None, haseout=eout is not None,
+                             # carried by the first record of a library: every name of its source text, and whether it is defined
+                             libnames=srcn.get(lname, []) if first else [], libdefined=[n in tlib.cells for n in srcn.get(lname, [])] if first else []))
+            first = False
     return recs
 
 
@@ -146,8 +192,12 @@ def main(tier=None, replay=None):
         ck.count('family:' + x['fam'])
         ck.nontrivial.add(x['lib'] + ':' + x['name'])
     ck.need_cover(['family:' + f for f in ('and', 'nand', 'or', 'nor', 'xor', 'xnor', 'buf', 'inv', 'ao', 'aoi', 'oa', 'oai', 'mux2', 'mux4', 'ha', 'fa')])
-    if len(recs) < 1000 and not replay:
-        raise MachineryError('only %d library cells found' % len(recs))
+    ck.count('source-text-names', sum(len(x['libnames']) for x in recs))
+    if not replay and sum(len(x['libnames']) for x in recs) < len(recs):
+        # the library texts are no longer plain TechLib("...") literals the harness can read: SourceNamesDefined is not
+        # evaluated on all names (the per-definition clause NamesDefined still is); reported, not an alarm
+        ck.drift('only %d cell names could be read from the source texts of techlib.py (%d cells are defined): SourceNamesDefined is partial' % (
+            sum(len(x['libnames']) for x in recs), len(recs)))
     ex = [x for x in recs if x['fam'] == 'aoi'][0]
     ck.sample(dict(cell=ex['lib'] + ':' + ex['name'], family=ex['fam'], groups=ex['groups'], pins=ex['pins']))
     ck.extra['exhaustive'] = True
